@@ -6,7 +6,7 @@ import re
 import subprocess
 import time
 
-from .paths import DRIVER, LEAN
+from .paths import LEAN
 
 ALLOWED_AXIOMS = {'propext', 'Classical.choice', 'Quot.sound'}
 FORBIDDEN = re.compile(
@@ -141,12 +141,13 @@ def leanchecker(modules, timeout=1500):
     return proc.returncode == 0, (proc.stdout + proc.stderr)[-2000:]
 
 
-def run_driver(lines, timeout=900):
-    """Pipe protocol lines to the compiled driver; one output line per input line."""
+def run_driver(exe, lines, timeout=900):
+    """Pipe protocol lines to a compiled driver; one output line per input line."""
     if not lines:
         return []
     data = '\n'.join(lines) + '\n'
-    proc = subprocess.run([str(DRIVER)], input=data, capture_output=True, text=True, timeout=timeout)
+    path = LEAN / '.lake' / 'build' / 'bin' / exe
+    proc = subprocess.run([str(path)], input=data, capture_output=True, text=True, timeout=timeout)
     if proc.returncode != 0:
         raise RuntimeError(f'driver exited {proc.returncode}: {proc.stderr[-500:]}')
     out = proc.stdout.split('\n')
